@@ -22,6 +22,7 @@ mod mon_c10;
 mod mon_c11;
 mod mon_c12;
 mod mon_c14;
+mod mon_c15;
 mod mon_c16;
 mod mon_c17;
 mod mon_c18;
@@ -52,6 +53,7 @@ fn monitor(id: &str) -> Option<Box<dyn Monitor>> {
         "C14" => Some(Box::new(mon_c14::C14)),
         "C16" => Some(Box::new(mon_c16::C16)),
         "C17" => Some(Box::new(mon_c17::C17)),
+        "C15" => Some(Box::new(mon_c15::C15)),
         "C18" => Some(Box::new(mon_c18::C18)),
         _ => None,
     }
@@ -149,6 +151,27 @@ fn main() {
             let r = mon_c01::judge_program("C01", "rand", idx, &q, &tag, &[lv], None);
             let v = &r.violations[0];
             let _ = writeln!(out, "// ===== {} {}\n{}// input: {}\n// expected: {}\n// observed: {}\n{}", tag, idx, cmodel::print_program(&q), v.replay["input"], v.replay["expected"], v.replay["observed"], v.replay["listing"].as_str().unwrap_or("").lines().map(|l| format!("//   {}", l)).collect::<Vec<_>>().join("\n"));
+        }
+        "reduce-rej" => {
+            // development: vmon reduce-rej <tag> <idx> <substring> : shrink a program the compiler refuses with that message
+            install_panic_hook();
+            let _keep = silence_stdio();
+            let idx: u64 = args[3].parse().unwrap();
+            let p = cgen::gen_program(&args[2], idx, &mon_c01::cfg_c01());
+            let want = args[4].clone();
+            let bad = |q: &cmodel::Program| -> bool {
+                match driver::compile_src(&cmodel::print_program(q), &driver::Opts::o(0)) {
+                    driver::Outcome::Ok(_) => false,
+                    o => o.short().contains(&want),
+                }
+            };
+            let mut out = _keep;
+            if !bad(&p) {
+                let _ = writeln!(out, "// not rejected with that message");
+                return;
+            }
+            let q = reduce::reduce(&p, &bad, 400);
+            let _ = writeln!(out, "{}", cmodel::print_program(&q));
         }
         "one" => {
             // development: vmon one <ID> <kind> <idx> : run one case in this process, print everything
